@@ -26,21 +26,32 @@ def anc_state(e, tag):
     return (u * p) @ u.conj().T
 
 
-def env_spec(kind, d, e, n, tag, transform, caps):
+def _file_cls(**kw):
+    from oqupy.process_tensor import FileProcessTensor
+    return FileProcessTensor(mode="write", filename=None, **kw)
+
+
+def env_spec(kind, d, e, n, tag, transform, caps, file=False):
     """Returns dict(pt=..., kraus=lambda k: physical Kraus list, sigma=ancilla state)."""
     v = M.generic_unitary(d, 3 + tag) if transform else None
+    if file:
+        import functools
+        orig = A.build_pt
+        build = functools.partial(orig, cls=_file_cls)
+    else:
+        build = A.build_pt
     sigma = anc_state(e, tag)
     if kind == "unitary":
         ks_int = [[R.random_free_unitary(d * e, 10 * tag + k)] for k in range(n)]
-        pt = A.build_pt(d, e, sigma, ks_int, dt=DT, basis_v=v, caps=caps)
+        pt = build(d, e, sigma, ks_int, dt=DT, basis_v=v, caps=caps)
         ks = [A.physical_kraus(k, v, e) for k in ks_int]
     elif kind == "cptp":
         ks_int = [R.amplitude_damping_kraus_joint(d, e, 10 * tag + k, p=0.3 + 0.1 * k) for k in range(n)]
-        pt = A.build_pt(d, e, sigma, ks_int, dt=DT, basis_v=v, caps=caps)
+        pt = build(d, e, sigma, ks_int, dt=DT, basis_v=v, caps=caps)
         ks = [A.physical_kraus(k, v, e) for k in ks_int]
     elif kind == "rank3":
         us = [[R.random_free_unitary(e, 100 * tag + 10 * k + t) for t in range(d)] for k in range(n)]
-        pt = A.build_pt(d, e, sigma, None, dt=DT, rank3_us=us, basis_v=v, caps=caps)
+        pt = build(d, e, sigma, None, dt=DT, rank3_us=us, basis_v=v, caps=caps)
         ks = [A.physical_kraus(R.controlled_kraus(u), v, e) for u in us]
     elif kind == "trivial":
         from oqupy.process_tensor import TrivialProcessTensor
@@ -105,7 +116,7 @@ def control_spec(kind, d, n):
 def run_case(case):
     """case: dict(d, n, envs=[(kind,e,tag,transform,caps)...], system, control, start, num_steps, subdiv)"""
     d, n = case["d"], case["n"]
-    envs = [env_spec(k, d, e, n, tag, tr, caps) for (k, e, tag, tr, caps) in case["envs"]]
+    envs = [env_spec(k, d, e, n, tag, tr, caps, file=bool(case.get("file"))) for (k, e, tag, tr, caps) in case["envs"]]
     start = case.get("start", 0.0)
     sysm, props = system_spec(case["system"], d, start)
     ns = case.get("num_steps") or n
@@ -123,6 +134,13 @@ def run_case(case):
                                   progress_type="silent", **kw)
     except Exception as ex:  # noqa
         return {"dev": None, "exc": f"{type(ex).__name__}: {ex}"[:200]}
+    finally:
+        if case.get("file"):
+            for x in envs:
+                try:
+                    x["pt"].remove()
+                except Exception:  # noqa
+                    pass
     real = [x for x in envs if x["kraus"] is not None]
     ref = R.simulate(rho0, [x["sigma"] for x in real], lambda j, k: real[j]["kraus"][k], props, ns, pre, post)
     got = np.array(dyn.states)
@@ -142,6 +160,11 @@ def cases_single(tier):
             des, [1, 2, 4], ["unitary", "rank3", "cptp"], [False, True], ["explicit", "computed"],
             ["zero", "H", "H+L", "H(t)"], ["none", "pre", "post", "pre-last"]):
         out.append({"fam": "single", "d": d, "n": n, "envs": [(kind, e, 1, tr, caps)], "system": sysk, "control": ck})
+    # file-backed process tensors (FileProcessTensor) with the same content
+    for (d, e), kind, tr, caps, sysk in itertools.product([(2, 3), (3, 2)], ["unitary", "rank3", "cptp"], [False, True],
+                                                          ["explicit", "computed"], ["H", "H(t)"]):
+        out.append({"fam": "file", "d": d, "n": 3, "envs": [(kind, e, 1, tr, caps)], "system": sysk, "control": "pre",
+                    "file": True})
     # first n' steps of a longer PT, non-zero start time with H(t), both subdivision settings
     for (d, e), kind, nsub, start, sub in itertools.product([(2, 3), (3, 2)], ["unitary", "rank3", "cptp"],
                                                             [1, 2, 3], [0.0, 1.7, -0.3], ["default", None]):
